@@ -204,4 +204,80 @@ Proof.
     rewrite IH. reflexivity.
 Qed.
 
+(* ---------- browser histories ---------- *)
+Definition bmodel_obs (cfg : config) (w : bworld) (e : bevent) : bobs :=
+  match e with
+  | BvTick _ => BoTick
+  | BvStart nonce rq =>
+      let m := oauth_start nonce rq in BoStart (mkBSO (sr_status m) (start_set_cookies m) (sr_state m))
+  | BvCallback rq rd =>
+      let m := oauth_callback lower cfg (bw_now w) (with_csrf rq (bw_csrf w)) rd in
+      BoCb (mkBCO (bw_csrf w) (callback_set_cookies m) (cb_obs_of m))
+  | BvSignIn p rq rr vr =>
+      BoSi (bw_sess w) (si_obs_of (sign_in_route lower cfg p (bw_now w) rq (jar_cookie (bw_sess w)) rr vr))
+  end.
+
+Fixpoint bmodel_steps (cfg : config) (w : bworld) (evs : list bevent) : list (bevent * bobs) :=
+  match evs with
+  | [] => []
+  | e :: r => (e, bmodel_obs cfg w e) :: bmodel_steps cfg (bstep lower cfg w e) r
+  end.
+
+(* the nonces are the server's: hex of 32 random bytes — non-empty, no colon *)
+Definition good_event (e : bevent) : Prop :=
+  match e with BvStart n _ => n <> [] /\ ~ In colon n | _ => True end.
+
+Definition mjar_of (w : bworld) : option (str * bool) := option_map (fun v => (v, true)) (bw_csrf w).
+
+Lemma sc_eqb_refl x : sc_eqb x x = true.
+Proof. unfold sc_eqb. rewrite str_eqb_refl, bool_eqb_refl. reflexivity. Qed.
+
+Lemma mjar_value_of w : mjar_value (mjar_of w) = bw_csrf w.
+Proof. unfold mjar_value, mjar_of. destruct (bw_csrf w); reflexivity. Qed.
+
+Lemma bhist_holds_model cfg evs w :
+  rule_guard lower cfg = true -> Forall good_event evs ->
+  bhist_judge lower cfg w (mjar_of w) (bw_sess w) (bmodel_steps cfg w evs) = (true, true).
+Proof.
+  intros G. revert w; induction evs as [|e evs IH]; intros w Hg; [reflexivity|].
+  inversion Hg as [|e' evs' He Hg']; subst. cbn [bmodel_steps bhist_judge].
+  destruct e as [d|nonce rq|rq rd|p rq rr vr]; cbn [bmodel_obs].
+  - specialize (IH (bstep lower cfg w (BvTick d)) Hg'). cbn [bstep] in *.
+    unfold mjar_of in *. cbn [bw_csrf bw_sess] in *. rewrite IH. reflexivity.
+  - cbn [bs_status bs_set bs_state]. destruct He as [Hne Hnc].
+    rewrite N.eqb_refl, (list_eqb_refl _ sc_eqb_refl), option_str_eqb_refl.
+    assert (J : jar_apply_all None (start_set_cookies (oauth_start nonce rq)) = sr_csrf_set (oauth_start nonce rq)).
+    { rewrite jar_after_start. destruct (sr_csrf_set (oauth_start nonce rq)); reflexivity. }
+    rewrite J. pose proof (st_holds_model nonce rq Hne Hnc) as Hs. cbv zeta in Hs. rewrite Hs.
+    assert (M : fold_left (mjar_apply true) (start_set_cookies (oauth_start nonce rq)) (mjar_of w) =
+                mjar_of (bstep lower cfg w (BvStart nonce rq))).
+    { unfold mjar_of. cbn [bstep bw_csrf]. rewrite jar_after_start. unfold start_set_cookies.
+      destruct (sr_csrf_set (oauth_start nonce rq)); reflexivity. }
+    rewrite M. specialize (IH (bstep lower cfg w (BvStart nonce rq)) Hg').
+    cbn [bstep bw_sess] in IH |- *. rewrite IH. reflexivity.
+  - cbn [bc_sent bc_set bc_obs]. set (m := oauth_callback lower cfg (bw_now w) (with_csrf rq (bw_csrf w)) rd).
+    rewrite cb_agree_refl, (list_eqb_refl _ sc_eqb_refl), mjar_value_of, option_str_eqb_refl.
+    pose proof (cb_holds_model cfg (bw_now w) (with_csrf rq (bw_csrf w)) rd G) as Hc. fold m in Hc. rewrite Hc.
+    assert (M : fold_left (mjar_apply false) (callback_set_cookies m) (mjar_of w) =
+                mjar_of (bstep lower cfg w (BvCallback rq rd))).
+    { unfold mjar_of. cbn [bstep bw_csrf]. fold m. rewrite jar_after_callback. unfold callback_set_cookies.
+      destruct (cr_csrf_cleared m); reflexivity. }
+    rewrite M.
+    assert (E : (if is_some (co_saved (cb_obs_of m))
+                 then mjar_from_start (mjar_of w) && negb (is_some (mjar_of (bstep lower cfg w (BvCallback rq rd))))
+                 else true) = true).
+    { cbn [cb_obs_of co_saved]. destruct (cr_saved m) as [s|] eqn:Sv; [|reflexivity]. cbn [is_some].
+      pose proof (callback_saved_cleared lower _ _ _ _ _ Sv) as Cl.
+      pose proof (callback_csrf lower _ _ _ _ _ Sv) as [nonce [redirect [em [ac [rt [du [_ [_ [_ [_ [_ [Hcs _]]]]]]]]]]]].
+      cbn [with_csrf cb_csrf] in Hcs. unfold mjar_of at 1. rewrite Hcs. cbn [option_map mjar_from_start andb].
+      unfold mjar_of. cbn [bstep bw_csrf]. rewrite jar_after_callback. fold m in Cl |- *. rewrite Cl. reflexivity. }
+    rewrite E. specialize (IH (bstep lower cfg w (BvCallback rq rd)) Hg').
+    cbn [bstep bw_sess cb_obs_of co_saved] in IH |- *. fold m in IH |- *.
+    destruct (cr_saved m); rewrite IH; reflexivity.
+  - rewrite si_agree_refl, (opt_close_refl _ sess_close_refl),
+      (si_holds_model cfg p _ rq _ rr vr G).
+    specialize (IH (bstep lower cfg w (BvSignIn p rq rr vr)) Hg').
+    unfold mjar_of in *. cbn [bstep bw_csrf bw_sess si_obs_of so_ops] in IH |- *. rewrite IH. reflexivity.
+Qed.
+
 End P.
